@@ -1,6 +1,6 @@
 """C04 - log-densities are the documented normalised densities in every parameterisation.
 
-Spec: specs/Families.tla (+ lib/SymLog.tla, DiffOps.tla).  TLC enumerates the parameter lattice of every family, checks
+Spec: specs/Families.tla (+ lib/SymLog.tla, DiffOps.tla); part `Reassign` of the same module for sequences on one object.  TLC enumerates the parameter lattice of every family, checks
 SameDistribution / QuadIdentity / Unnormalised / NaNOutside / OutcomeTable on the specification and emits the exact
 expected log-density (symbolic-log coefficients), cdf and gradient of every configuration.  This module builds the real
 cuqi distributions in every documented way of passing the parameters and compares logpdf / pdf / cdf / logd.
@@ -16,7 +16,13 @@ META = {
              "for every emitted case in every way of passing parameters (scalar broadcast, list, ndarray, scipy sparse, "
              "callable conditioned later) on both sides of the dense/sparse switch (MIN_DIM_SPARSE lowered and dim 75/76); every "
              "matrix-shaped Gaussian input is replayed again at the magnitudes a = 4^-30, 4^30 of the covariance with the expected "
-             "value of the spec's ScalingLaw (logpdf' = logpdf - dim/2 log a, checked exactly by TLC for a = 1/4, 4)."),
+             "value of the spec's ScalingLaw (logpdf' = logpdf - dim/2 log a, checked exactly by TLC for a = 1/4, 4). Reassign part "
+             "(behavioural: Evaluate / Assign(unit) on ONE object, invariant ReassignIsFresh, deviation StaleCacheAfterAssign "
+             "refuted): for pairs of configurations of every family TLC emits, per order of the assignment units, the expected case "
+             "after every assignment; the harness builds one object, replaces its parameters through the public attributes / "
+             "setters (also in another shape of the Gaussian matrix input), cold (assign first, evaluate later), warm (every "
+             "observable evaluated before) and evaluating after each assignment, and compares logpdf / pdf / logd / cdf / "
+             "compute_cov / cov / sqrtprec with the expectation of a freshly built object of the current parameters."),
     "note": ("Bounded rational lattices (dyadic scales, integer shapes, smooth integers under logarithms); that the documented "
              "formulas integrate to one is trusted mathematics; Gaussian cdf compared at scipy's integration accuracy; sparse "
              "non-diagonal Gaussians refuse logpdf without cholmod (accepted); user-defined distributions: pass-through of the "
@@ -138,7 +144,7 @@ def _eval_cdf(ctx, case, fam, way, d, dist, x, extra="", tol=(1e-9, 1e-12)):
                      "cdf is not the integral of the documented density (product over independent components)", exp, v)
 
 
-def _eval_gaussian_cov_cdf(ctx, case, way, d, dist, x, mean, extra):
+def _eval_gaussian_cov_cdf(ctx, case, way, d, dist, x, mean, extra, with_cdf=True):
     """every input form denotes ONE distribution: the full covariance the object computes (and integrates for its cdf)
     is the inverse of the canonical precision of the specification; cdf = scipy's integral of that density"""
     from cuqiverif import families_common as fc
@@ -158,7 +164,7 @@ def _eval_gaussian_cov_cdf(ctx, case, way, d, dist, x, mean, extra):
                      "the covariance computed from this input form is not the inverse of the precision of the one distribution all "
                      "input forms denote", cov, c)
         return
-    if d >= 2:
+    if d >= 2 and with_cdf:
         st, v, _ = fc.call(lambda: dist.cdf(np.array(x)))
         if st == "raise":
             return
@@ -168,6 +174,38 @@ def _eval_gaussian_cov_cdf(ctx, case, way, d, dist, x, mean, extra):
         if got is None or abs(got - exp) > 5e-4:
             ctx.mismatch(_sig("cdf", "Gaussian", way, d, case, extra), case,
                          "cdf is not the integral of the density of the distribution this input form denotes", exp, v)
+
+
+def _expand_sym(v, d):
+    """a public matrix-valued attribute in the forms the class hands out (scalar, vector = diagonal, dense / sparse matrix)"""
+    v = v.todense() if hasattr(v, "todense") else v
+    a = np.asarray(v, dtype=float)
+    if a.size == 1:
+        return float(a.ravel()[0]) * np.eye(d)
+    if a.ndim == 1 and a.size == d:
+        return np.diag(a)
+    return a if a.shape == (d, d) else None
+
+
+def _eval_gaussian_attributes(ctx, case, way, d, dist, extra):
+    """the public attributes `cov` and `sqrtprec` of a Gaussian, where they hand out a value (a refusal - covariance not computed
+    for this input form - is not judged), describe the distribution the object currently denotes: cov = inverse of the canonical
+    precision of the specification, sqrtprec' sqrtprec = that precision"""
+    from cuqiverif import families_common as fc
+    if case.get("rank") != d or "prec" not in case:
+        return
+    P = fc.mat(case["prec"])
+    for name, target, what in (("cov", np.linalg.inv(P), "the attribute cov is not the covariance of the distribution the object denotes"),
+                               ("sqrtprec", P, "sqrtprec' sqrtprec is not the precision of the distribution the object denotes")):
+        st, v, _ = fc.call(lambda: getattr(dist, name))
+        if st == "raise" or v is None or callable(v):
+            continue
+        M = _expand_sym(v, d)
+        ctx.case(("gauss_attr", name, fc.case_id(case), way, extra), facet="gauss_attr")
+        if M is not None and name == "sqrtprec":
+            M = M.T @ M
+        if M is None or not np.allclose(M, target, rtol=1e-9, atol=1e-12):
+            ctx.mismatch(_sig("attr_" + name, "Gaussian", way, d, case, extra), case, what, target, v)
 
 
 def _eval_gaussian_scaled(ctx, case, form, shape, data, how, way, d, x, mean, extra, refusal_ok):
@@ -396,6 +434,243 @@ def check_gaussbig(ctx, un, case):
                               pkey=json.dumps([case["mean"], case["inputs"][1]["vec"]]))
 
 
+# ------------------------------------------------------------------ Reassign part: one object, parameters assigned one by one
+RE_FAMS = ["Normal", "Gaussian", "GMRF", "LMRF", "CMRF", "Laplace", "SmoothedLaplace", "Cauchy", "Gamma", "InverseGamma", "Beta",
+           "Lognormal", "Uniform"]
+RE_MODES = ("cold", "warm", "each")
+#   cold  A* E      build with config 1, assign, evaluate only afterwards
+#   warm  E A* E    build, evaluate every observable (whatever is derived lazily is derived from config 1), assign, evaluate
+#   each  (E A)* E  build, evaluate, and evaluate again after every single assignment
+
+
+def _re_refused(ctx, fam, name, e):
+    ob = ctx.observations.setdefault("reassign_refused", {})
+    k = "%s.%s" % (fam, name)
+    ob[k] = ob.get(k, 0) + 1
+    ctx.observations.setdefault("reassign_refused_example", "%s: %r" % (k, e))
+
+
+def _re_constancy(ctx, case, fam, way, d, dist, x, x2, extra):
+    """logd - logpdf of ONE object state is the same number at two evaluation points"""
+    from cuqiverif import families_common as fc
+    vals = []
+    for p in (x, x2):
+        a, b = fc.call(lambda: dist.logd(np.array(p))), fc.call(lambda: dist.logpdf(np.array(p)))
+        if a[0] != "value" or b[0] != "value":
+            return
+        a, b = fc.scalar_of(a[1]), fc.scalar_of(b[1])
+        if a is None or b is None or not (math.isfinite(a) and math.isfinite(b)):
+            return
+        vals.append((a - b, b))
+    if abs(vals[0][0] - vals[1][0]) > 1e-9 * max(1.0, abs(vals[0][1]), abs(vals[1][1])):
+        ctx.mismatch(_sig("logd", fam, way, d, case, extra), case, "logd - logpdf depends on the evaluation point", vals[0][0], vals[1][0])
+
+
+def _re_sequences(rc, seen, key):
+    """(mode, n): assign the first n units of the order; every distinct (start configuration, realisation, mode, prefix) once"""
+    L = len(rc["trail"])
+    order = tuple(rc["order"])
+    out = []
+    for mode in RE_MODES:
+        # (warm with one assignment is the first step of `each`)
+        for n in ((L,) if mode == "each" else range(2 if mode == "warm" else 1, L + 1)):
+            k = (key, mode, order[:n])
+            if k not in seen:
+                seen.add(k)
+                out.append((mode, n))
+    return out
+
+
+def _re_tag(way, mode, rc, n):
+    return "reassign:%s:%s:%s" % (way, mode, "+".join("+".join(t["assign"]) for t in rc["trail"][:n]))
+
+
+def reassign_generic(ctx, rc, seen, mrf=False):
+    """Normal ... Uniform, Lognormal and the Markov random fields"""
+    from cuqiverif import families_common as fc
+    frm, fam = rc["from"], rc["fam"]
+    d = frm["dim"]
+    x0 = fc.vec(frm["x"])
+    extra, tol = "", (RTOL, ATOL)
+    if mrf:
+        m = frm["mrf"]
+        extra = "/pd=%d/bc=%s/order=%d" % (m["pd"], m["bc"], m["order"])
+        tol = (RTOL, ATOL) if (m["bc"] == "zero" or fam != "GMRF") else (1e-8, 1e-8)
+    # (a list handed to the constructor is an ndarray afterwards: that realisation adds nothing here)
+    variants = list(fc.mrf_variants(frm)) if mrf else [v for v in fc.family_variants(frm) if v[0] != "list"]
+    nseq = 0
+    for way, builder in variants:
+        # python scalars are assigned only to the parameters that were python scalars at construction (an object whose
+        # dimension is inferred from its parameters must keep at least one parameter of full length)
+        scalars = set(way[len("scalar("):-1].split("+")) if way.startswith("scalar(") else set()
+        for mode, n in _re_sequences(rc, seen, (fc.case_id(rc), way)):
+            st, dist, _ = fc.call(builder)
+            if st == "raise":
+                break                                   # reported by the configuration part of the check
+            if mode != "cold":
+                fc.warm_up(dist, x0)
+            refused = False
+            for i, t in enumerate(rc["trail"][:n]):
+                exp = dict(t["expect"], kind="reassign_step", rc=rc)      # a replay file re-executes the whole behaviour
+                steps = [(nm, fc.assign_value(exp, nm, scalar=(nm in scalars), one_element_array=(way == "list"))) for nm in t["assign"]]
+                e = fc.apply_assignments(dist, steps)
+                if e is not None:
+                    _re_refused(ctx, fam, "+".join(t["assign"]), e)
+                    refused = True
+                    break
+                if mode == "each" or i == n - 1:
+                    tag = _re_tag(way, mode, rc, i + 1)
+                    x = fc.vec(exp["x"])
+                    if _eval_density(ctx, _Unnorm(), exp, fam, tag, d, dist, x, extra=extra, tol=tol, xforms=False):
+                        _eval_cdf(ctx, exp, fam, tag, d, dist, x, extra=extra)
+                        _re_constancy(ctx, exp, fam, tag, d, dist, x, x0, extra)
+            nseq += 0 if refused else 1
+    return nseq
+
+
+_RE_HOW = {"scalar": "scalar", "vector": "ndarray", "diag": "ndarray", "dense": "ndarray", "sparse": "csr"}
+
+
+def reassign_gaussian(ctx, rc, seen):
+    """the mean and the matrix-valued input of ONE Gaussian of every input form are replaced (the new matrix also in another
+    shape than the one the object was built with: scalar -> dense, dense -> vector ...), on both sides of the sparse switch"""
+    import cuqi
+    from cuqiverif import families_common as fc
+    frm = rc["from"]
+    d = frm["dim"]
+    x0 = fc.vec(frm["x"])
+    mean0 = fc.vec(frm["par"]["mean"])
+
+    def inputs_of(case):
+        return {(i["form"], i["shape"]): i["data"] for i in case["inputs"] if not (i["shape"] == "sparse" and d == 1)}
+    in0 = inputs_of(frm)
+    # the configuration in force when the matrix is assigned decides which shapes the new matrix can take
+    mstep = [t for t in rc["trail"] if "matrix" in t["assign"]][0]["expect"]
+    in2 = inputs_of(mstep)
+    nseq = 0
+    for thr in [None] + ([d - 1] if d >= 2 else []):
+        for (form, s1), data1 in sorted(in0.items()):
+            s2s = [s for s in dict.fromkeys([s1, "dense"] + (["vector"] if s1 == "dense" else [])) if (form, s) in in2]
+            mways = ["ndarray"] + (["scalar"] if (frm["scal"]["mean"] and thr is None and s1 == "scalar") else [])
+            for s2 in s2s:
+                for mway in mways:
+                    way = "%s:%s>%s+mean:%s" % (form, s1, s2, mway)
+                    extra = "/thr=%s" % ("default" if thr is None else thr)
+
+                    def builder():
+                        kw = {form: fc.gaussian_param(s1, data1, _RE_HOW[s1])}
+                        if mway == "scalar" and s1 == "scalar":
+                            kw["geometry"] = d
+                        return cuqi.distribution.Gaussian(float(mean0[0]) if mway == "scalar" else np.array(mean0), **kw)
+                    for mode, n in _re_sequences(rc, seen, (fc.case_id(rc), way, thr)):
+                        with fc.sparse_threshold(thr):
+                            st, dist, _ = fc.call(builder)
+                            if st == "raise":
+                                break
+                            if mode != "cold":
+                                fc.warm_up(dist, x0)
+                            cur_shape, cur_data = s1, data1
+                            for i, t in enumerate(rc["trail"][:n]):
+                                exp = dict(t["expect"], kind="reassign_step", rc=rc)
+                                if "matrix" in t["assign"]:
+                                    cur_shape, cur_data = s2, in2[(form, s2)]
+                                    steps = [(form, fc.gaussian_param(s2, cur_data, _RE_HOW[s2]))]
+                                else:
+                                    mv = fc.vec(exp["par"]["mean"])
+                                    steps = [("mean", float(mv[0]) if (mway == "scalar" and exp["scal"]["mean"]) else mv)]
+                                e = fc.apply_assignments(dist, steps)
+                                if e is not None:
+                                    _re_refused(ctx, "Gaussian", steps[0][0], e)
+                                    break
+                                if mode == "each" or i == n - 1:
+                                    tag = _re_tag(way, mode, rc, i + 1)
+                                    x = fc.vec(exp["x"])
+                                    refusal_ok = cur_shape == "sparse" and not fc.is_diag(cur_data)
+                                    if _eval_density(ctx, _Unnorm(), exp, "Gaussian", tag, d, dist, x, extra=extra,
+                                                     accept_refusal=refusal_ok, xforms=False):
+                                        _re_constancy(ctx, exp, "Gaussian", tag, d, dist, x, x0, extra)
+                                        _eval_gaussian_attributes(ctx, exp, tag, d, dist, extra)      # before compute_cov()
+                                        if cur_shape != "sparse":
+                                            if d == 1:
+                                                _eval_cdf(ctx, exp, "Gaussian", tag, d, dist, x, extra=extra)
+                                            # multivariate cdf (scipy integrates numerically): once per sequence of the last mode
+                                            _eval_gaussian_cov_cdf(ctx, exp, tag, d, dist, x, fc.vec(exp["par"]["mean"]), extra,
+                                                                   with_cdf=(mode == "each" and i == n - 1 and thr is None))
+                            else:
+                                nseq += 1
+    return nseq
+
+
+def check_reassign(ctx, rc, seen, mrf_cache=None):
+    from cuqiverif import families_common as fc
+    fam = rc["fam"]
+    if fam == "Gaussian":
+        return reassign_gaussian(ctx, rc, seen)
+    if fam in ("GMRF", "LMRF", "CMRF"):
+        m = rc["from"]["mrf"]
+        key = (m["pd"], m["n"], m["bc"], m["order"], m["wm"])
+        cache = mrf_cache if mrf_cache is not None else {}
+        if key not in cache:
+            cache[key] = fc.mrf_operator_matches(rc["from"])
+        if not cache[key]:
+            return 0                                    # the other wrap-multiplicity variant is the one the code follows
+        return reassign_generic(ctx, rc, seen, mrf=True)
+    return reassign_generic(ctx, rc, seen)
+
+
+def start_reassign_tlc(ctx):
+    """the two TLC runs of the Reassign part, started in background threads (they run while the configuration part is replayed)"""
+    from concurrent.futures import ThreadPoolExecutor
+    from cuqiverif import families_common as fc
+    pool = ThreadPoolExecutor(max_workers=2)
+    jobs = {"reassign": pool.submit(fc.run_families, ctx, RE_FAMS, None, 4, "reassign"),
+            "deviation": pool.submit(fc.run_reassign_deviation, ctx)}
+    pool.shutdown(wait=False)
+    return jobs
+
+
+def run_reassign(ctx, jobs=None):
+    """Reassign part of Families.tla: TLC checks ReassignIsFresh on the state graph Evaluate / Assign(unit) of every pair of
+    configurations and emits, per order of the assignment units, the expected case after every assignment."""
+    from cuqiverif import families_common as fc, tlc
+    from cuqiverif.core import MachineryError
+    jobs = jobs or start_reassign_tlc(ctx)
+    try:
+        res = jobs["reassign"].result()
+    finally:
+        try:
+            dev = jobs["deviation"].result()
+            tlc.cleanup(dev)
+        except Exception:
+            if jobs["reassign"].exception() is None:
+                tlc.cleanup(jobs["reassign"].result())
+            raise
+    ctx.model_must_hold(res, "Families/reassign")
+    cases = [c for c in res.cases if c.get("kind") == "reassign"]
+    tlc.cleanup(res)
+    ctx.observations.setdefault("deviation_runs", {})["Families.reassign_stale.deviation.cfg"] = "StaleCacheAfterAssign -> ReassignIsFresh"
+    per = {}
+    for c in cases:
+        per[c["fam"]] = per.get(c["fam"], 0) + 1
+    missing = [f for f in RE_FAMS if not per.get(f)]
+    if missing:
+        raise MachineryError("Families.tla (Reassign part) emitted no behaviour for %r (vacuous)" % missing)
+    seen, cache, n = set(), {}, 0
+    for rc in sorted(cases, key=fc.reassign_id):
+        n += check_reassign(ctx, rc, seen, cache)
+    if not n:
+        raise MachineryError("no Reassign sequence was replayed")
+    ctx.observations["reassign_behaviours_per_family"] = per
+    ctx.observations["reassign_sequences_replayed"] = n
+    mid = sorted((c for c in cases if c["fam"] == "Cauchy"), key=fc.reassign_id)
+    if mid:
+        c = mid[len(mid) // 2]
+        ctx.sample({"reassign": {"fam": c["fam"], "from": c["from"]["par"], "order": c["order"],
+                                 "trail": [{"assign": t["assign"], "par": t["expect"]["par"], "x": t["expect"]["x"],
+                                            "logpdf": t["expect"]["logpdf"]} for t in c["trail"]]}})
+    return n
+
+
 # ------------------------------------------------------------------ driver
 def dispatch(ctx, un, case, mrf_cache=None):
     kind, fam = case.get("kind"), case.get("fam")
@@ -415,7 +690,16 @@ def dispatch(ctx, un, case, mrf_cache=None):
 def run(ctx):
     from cuqiverif import families_common as fc, tlc
     from cuqiverif.core import MachineryError
-    res = fc.run_families(ctx, fams=C04_FAMS)
+    re_jobs = start_reassign_tlc(ctx)
+    try:
+        res = fc.run_families(ctx, fams=C04_FAMS)
+    except BaseException:
+        for f in re_jobs.values():          # leave no TLC work directory behind
+            try:
+                tlc.cleanup(f.result())
+            except BaseException:           # noqa: BLE001
+                pass
+        raise
     ctx.model_must_hold(res, "Families")
     cases = list(res.cases)
     tlc.cleanup(res)
@@ -442,6 +726,7 @@ def run(ctx):
             for c in sorted(fams[fam], key=fc.case_id):      # canonical order (TLC's emission order is scheduling-dependent)
                 dispatch(ctx, un, c)
                 n += 1
+    n += run_reassign(ctx, re_jobs)
     ctx.observations["cases_per_family"] = {f: len(v) for f, v in fams.items()}
     for f in ("Cauchy", "Gaussian", "GMRF"):
         c = sorted(fams[f], key=fc.case_id)[len(fams[f]) // 2]
@@ -463,4 +748,8 @@ def run(ctx):
 def replay(ctx, case):
     if case.get("kind") == "model":
         return run(ctx)
+    if case.get("kind") == "reassign":
+        return check_reassign(ctx, case, set())
+    if case.get("kind") == "reassign_step":
+        return check_reassign(ctx, case["rc"], set())
     dispatch(ctx, _Unnorm(), case, mrf_cache={})
